@@ -183,7 +183,7 @@ class OtfadHw:
         if aes is None:
             aes = self._aes[c.key] = _Aes(c.key)
         w0, w1 = c.ctr[:4], c.ctr[4:8]
-        x = bytes(a ^ b for a, b in zip(w0, w1))
+        x = (int.from_bytes(w0, "big") ^ int.from_bytes(w1, "big")).to_bytes(4, "big")
         return aes.enc(w0 + w1 + x + (line_addr & 0xFFFFFFF0).to_bytes(4, "big"))
 
     def read(self, mem: bytes, mem_base: int) -> bytes:
@@ -204,7 +204,7 @@ class OtfadHw:
                 line = line + bytes(16 - n)
             if self.byte_swap:
                 line = _lanes(line)
-            pt = bytes(a ^ b for a, b in zip(line, ks))
+            pt = (int.from_bytes(line, "big") ^ int.from_bytes(ks, "big")).to_bytes(16, "big")
             if self.byte_swap:
                 pt = _lanes(pt)
             out += pt[:n]
